@@ -1072,6 +1072,9 @@ class TenSym(PySym):
     def call(self, n):
         cn = call_name(n) or ""
         last = cn.split(".")[-1]
+        if isinstance(n.func, ast.Name) and n.func.id in self.env and callable(self.env[n.func.id]) and not isinstance(self.env[n.func.id], (tuple, Obj, str)):
+            # a local name bound to a method of a model object (`emit = self._fh.write`)
+            return self.env[n.func.id](*self.call_args(n), **{k_.arg: self.ex(k_.value) for k_ in n.keywords if k_.arg})
         # ---- methods on evaluated receivers
         root = n.func
         while isinstance(root, ast.Attribute):
@@ -1603,6 +1606,19 @@ class TenSym(PySym):
                 if all(rs_) or not any(rs_):
                     return rs_[0]       # decided on representative renderings of the formatted values (positive / negative / zero-or-small)
                 raise Unsupported("%s(%r, ..) depends on the value formatted: %r" % (cn, pat_, txt_))
+        if cn == "locals" and not n.args and cn not in self.env:
+            return {k_: v_ for k_, v_ in self.env.items() if not k_.startswith("__")}
+        if cn == "format" and 1 <= len(n.args) <= 2 and cn not in self.funcs and cn not in self.env:
+            v_ = A(0)
+            spec_ = self.pyval(A(1)) if len(n.args) == 2 else ""
+            if isinstance(spec_, str):
+                pv_ = self.pyval(v_)
+                if isinstance(pv_, (int, str)) and not isinstance(pv_, bool):
+                    try:
+                        return format(pv_, spec_)
+                    except (TypeError, ValueError) as e_:
+                        raise Raised("the analysed path raises: %s" % e_, type(e_).__name__)
+                return FStr([FVal(v_, spec_)])
         if cn in ("sub", "re.sub") and len(n.args) == 3 and cn not in self.funcs:
             a_ = [self.pyval(self.ex(x_)) for x_ in n.args]
             if all(isinstance(x_, str) for x_ in a_):
@@ -2123,6 +2139,9 @@ class TenSym(PySym):
                 self.yielded.extend(self.iterate(self.ex(s.value.value)))
         elif isinstance(s, ast.Expr):
             if isinstance(s.value, ast.Constant):
+                return
+            if isinstance(s.value, ast.Call) and isinstance(s.value.func, ast.Name) and callable(self.env.get(s.value.func.id)) and not isinstance(self.env.get(s.value.func.id), (tuple, Obj, str)):
+                self.ex(s.value)
                 return
             if isinstance(s.value, ast.Call) and ((call_name(s.value) or "") in self.models or (call_name(s.value) or "") in self.funcs or
                                                   (isinstance(s.value.func, ast.Name) and isinstance(self.env.get(s.value.func.id), tuple) and self.env[s.value.func.id][:1] == ("<closure>",))):
